@@ -15,7 +15,6 @@ use std::io::{BufRead, Write};
 use std::panic::{catch_unwind, AssertUnwindSafe};
 use std::path::PathBuf;
 use std::str::FromStr;
-use std::sync::Mutex;
 
 use prqlc::{DisplayOptions, ErrorMessages, Options, SourceTree, Target};
 use serde_json::{json, Value};
@@ -23,7 +22,10 @@ use serde_json::{json, Value};
 #[global_allocator]
 static GLOBAL: alloc_count::Counting = alloc_count::Counting;
 
-static LAST_PANIC: Mutex<Option<(String, String)>> = Mutex::new(None);
+// per-thread: the hook runs on the panicking thread, so concurrent compiles (C11 stress) do not mix up their reports
+thread_local! {
+    static LAST_PANIC: std::cell::RefCell<Option<(String, String)>> = const { std::cell::RefCell::new(None) };
+}
 
 fn install_panic_hook() {
     std::panic::set_hook(Box::new(|info| {
@@ -38,12 +40,12 @@ fn install_panic_hook() {
         } else {
             "<non-string payload>".to_string()
         };
-        *LAST_PANIC.lock().unwrap_or_else(|e| e.into_inner()) = Some((loc, msg));
+        LAST_PANIC.with(|p| *p.borrow_mut() = Some((loc, msg)));
     }));
 }
 
 fn take_panic() -> Value {
-    let p = LAST_PANIC.lock().unwrap_or_else(|e| e.into_inner()).take();
+    let p = LAST_PANIC.with(|p| p.borrow_mut().take());
     match p {
         Some((loc, msg)) => json!({"loc": loc, "msg": msg}),
         None => json!({"loc": "?", "msg": "?"}),
